@@ -150,12 +150,15 @@ def gen_layer_case(rng):
     pay = bytes(rng.getrandbits(8) for _ in range(rng.choice([3, 20, 40])))
     stream = encode_stream(pay, rng.choice([8, 8, 12, 64]), pfx)
     nb = 29 if ext else 11
+    # NormalFixed / Mixed 29 bits: bits 16.. select the physical or the functional identifier, both of which are mine; flip
+    # only the address bytes there
+    flipbits = 16 if inst['txa']['mode'] in ('NormalFixed_29bits', 'Mixed_29bits') or (inst.get('rxa') or {}).get('mode') in ('NormalFixed_29bits', 'Mixed_29bits') else nb
     for f in stream:
         # a few foreign frames before each genuine frame
         for _ in range(rng.randint(0, 3)):
             r = rng.random()
             if r < 0.5:
-                ops.append([0, 'rx', rid ^ (1 << rng.randrange(nb)), int(ext), hx(f)])
+                ops.append([0, 'rx', rid ^ (1 << rng.randrange(flipbits)), int(ext), hx(f)])
             elif r < 0.7:
                 ops.append([0, 'rx', rid, int(not ext), hx(f)])
             elif pfx:
